@@ -49,7 +49,8 @@ ASSUME_COMMON = [
 ]
 ASSUME = {
     "C01": ASSUME_COMMON + [
-        "consist roll-ups (LC) are not part of this group (ConsistSplit covers consists)",
+        "consist roll-ups (LC: consist totals = sum over units) are evaluated by the ConsistSplit pipeline as Roll* and "
+        "decided here for C01 (quick tier: a reduced run of that pipeline)",
         "L10 (loco.energy_aux = component aux energy) is reported as AuxCurtailed inside the input class of F-C01-1 and "
         "as L10s/L10 everywhere else"],
     "C08": ASSUME_COMMON + [
@@ -87,7 +88,8 @@ def _cov_extra(res):
                            walk_vs_call_by_call=s.get("walk_diff", 0), walk_failed=s.get("walk_fail", 0)),
                 drift_samples=(res.get("tags", {}).get("DRIFT") or [[]])[0][:4],
                 accepted_steps=s.get("accepted", 0) + s.get("hist", 0), rejected_steps=s.get("rejected", 0),
-                exact_records=s.get("exact", 0), inexact_records=s.get("inexact", 0))
+                exact_records=s.get("exact", 0), inexact_records=s.get("inexact", 0),
+                known_class_steps_F_C01_1=s.get("curtailed", 0), **_ROLL)
 
 
 GROUP = dict(
@@ -97,17 +99,19 @@ GROUP = dict(
         "quick": [dict(cfg="MCPowerFlow_quickC.cfg", emit=True, max_emit=2000),
                   dict(cfg="MCPowerFlow_quickB.cfg", emit=True, max_emit=2000),
                   dict(cfg="MCPowerFlow_minsoc.cfg", emit=True, may_be_zero=("Reject",))],
-        "thorough": [dict(cfg="MCPowerFlow_quickC.cfg", emit=True, max_emit=20000),
-                     dict(cfg="MCPowerFlow_quickB.cfg", emit=True, max_emit=20000),
+        # depth 3 emitted (sampled), depth 4 emitted (sampled), depth 3 over every efficiency combination and
+        # depth 5 on one unit per kind with the history hidden by VIEW (exhaustive, not emitted)
+        "thorough": [dict(cfg="MCPowerFlow_quickC.cfg", emit=True, max_emit=8000),
+                     dict(cfg="MCPowerFlow_quickB.cfg", emit=True, max_emit=8000),
                      dict(cfg="MCPowerFlow_minsoc.cfg", emit=True, may_be_zero=("Reject",)),
-                     dict(cfg="MCPowerFlow_thorC4.cfg", emit=True, max_emit=20000, workers=12, timeout=1200),
-                     dict(cfg="MCPowerFlow_thorB4.cfg", emit=True, max_emit=20000, workers=12, timeout=1200),
+                     dict(cfg="MCPowerFlow_thorC4.cfg", emit=True, max_emit=8000, workers=12, timeout=1200),
+                     dict(cfg="MCPowerFlow_thorB4.cfg", emit=True, max_emit=8000, workers=12, timeout=1200),
                      dict(cfg="MCPowerFlow_thorC3.cfg", emit=False, workers=12, timeout=1800),
                      dict(cfg="MCPowerFlow_thorB3.cfg", emit=False, workers=12, timeout=1800),
                      dict(cfg="MCPowerFlow_thorC5.cfg", emit=False, workers=12, timeout=1800),
                      dict(cfg="MCPowerFlow_thorB5.cfg", emit=False, workers=12, timeout=1800)],
     },
-    gen_n={"quick": 120, "thorough": 1500},
+    gen_n={"quick": 120, "thorough": 800},
     per_case_ms=20000,
     nontrivial=nontrivial,
     rule=RULE,
@@ -124,13 +128,55 @@ GROUP = dict(
 )
 
 
+_ROLL = {}      # consist roll-up numbers of the current run, merged into C01's evidence
+
+
+def _consist_rollup(tier, seed, t0, replay_desc=None):
+    """Consist clause of C01 ("consist-level fuel, battery and wheel totals equal the sums over its locomotives"):
+    ConsistSplitTrace.tla evaluates it as Roll* on every recorded consist step (checks/consist.py lists the names for
+    the owner of C01).  Thorough tier: the consist group's own *quick* run (shared cache with `bin/check C10 --tier
+    quick`; the consist group's thorough run alone takes longer than this group's whole budget).  Quick tier: a reduced
+    variant of the same pipeline under its own cache name, to stay inside the quick budget."""
+    import group
+    try:
+        import consist
+    except Exception as e:          # the consist group is built separately
+        print(f"NOTE property=C01 consist roll-up not evaluated (checks/consist.py unavailable: {e})")
+        return 0
+    names = list(getattr(consist, "extra_invariants_for_C01", []))
+    if not names:
+        return 0
+    G2 = dict(consist.GROUP)
+    if tier == "quick":
+        G2["name"] = "consist-rollup"
+        G2["models"] = {"quick": [dict(m, max_emit=min(m.get("max_emit") or 1500, 1500)) for m in consist.GROUP["models"]["quick"][:1]]}
+        G2["gen_n"] = {"quick": 300}
+        G2["vacuity"] = lambda r: None if r["stats"].get("accepted", 0) > 0 else "no accepted consist step recorded"
+    G2["props"] = {"C01": dict(invariants=names, level="model_checking",
+                               rule="consist steps recorded by the ConsistSplit pipeline (" + consist.GROUP.get("rule", "") + ")",
+                               assumptions=["consist roll-up clause only; single-locomotive ledgers are PowerFlow's"])}
+    res = group.run_group(G2, "quick", seed, only_cases=[replay_desc] if replay_desc else None)
+    rc = group.decide(G2, "C01", res, tier, seed, t0)
+    _ROLL.update(consist_cases=res["n_cases"], consist_trace_lines=res["trace_lines"],
+                 consist_invariants=names, consist_group_run_reused=bool(res.get("cache_hit")),
+                 consist_roll_failures=sum(1 for v in res["viols"] if v[2] in names))
+    return rc
+
+
 def run(pid, tier, seed, replay, t0):
-    """Standard group pipeline + MODEL-DRIFT lines (Level-B mismatch with Level A intact: counted, never an alarm)."""
+    """Standard group pipeline + MODEL-DRIFT lines (Level-B mismatch with Level A intact: counted, never an alarm);
+    C01 additionally decides the consist roll-up invariants recorded by the ConsistSplit pipeline."""
     import json
     import group
+    rc2 = 0
     if replay:
-        res = group.run_group(GROUP, tier, seed, only_cases=[json.load(open(replay))["desc"]])
+        rp = json.load(open(replay))
+        if str(rp.get("group", "")).startswith("consist"):
+            return _consist_rollup(tier, seed, t0, replay_desc=rp["desc"]) if pid == "C01" else 2
+        res = group.run_group(GROUP, tier, seed, only_cases=[rp["desc"]])
     else:
+        if pid == "C01":
+            rc2 = _consist_rollup(tier, seed, t0)
         res = group.run_group(GROUP, tier, seed)
     s = res["stats"]
     for k, what in (("drift_pub", "published limits differ from PowerFlow!PubOf"),
@@ -142,8 +188,10 @@ def run(pid, tier, seed, replay, t0):
             print(f"MODEL-DRIFT property={pid} {what}: {s[k]} of {s.get('b_checked', 0)} compared records "
                   f"(Level A intact unless a VIOLATION line follows)")
     rc = group.decide(GROUP, pid, res, tier, seed, t0)
+    rc = 1 if (rc or rc2) else 0
     print(f"{pid}: {'VIOLATED' if rc else 'held'} on {res['n_cases']} cases / {res['trace_lines']} trace lines "
-          f"({time.time()-t0:.0f}s)")
+          + (f"+ {_ROLL.get('consist_cases', 0)} consist cases / {_ROLL.get('consist_trace_lines', 0)} lines " if pid == "C01" and _ROLL else "")
+          + f"({time.time()-t0:.0f}s)")
     return rc
 
 
